@@ -275,6 +275,33 @@ where go : Nat → List α → Conv α → Conv α
 def bestStep {β : Type} (acc : α × Option β) (r : α × β) : α × Option β :=
   if acc.1 < r.1 then (r.1, some r.2) else acc
 def bestOf {β : Type} (inf : α) (rs : List (α × β)) : α × Option β := rs.foldl bestStep (inf, none)
+
+/-! ### several calls of `fit` on ONE `HypergraphMT` object
+
+What the object carries from one call to the next and `fit` reads again: `self.maxL` and the stored optimum
+`(u_f, w_f)` (`none`: attribute not set yet).  Everything else (`prng`, `u`, `w`, the tables, `train_info`) is rebuilt by
+`_check_fit_params` / inside the loop before it is read. -/
+
+/-- one call of `fit` on an object in state `o`, as repaired (D52): `self.maxL = -inf` first, then the
+`if self.maxL < loglik` update per realisation.  The result is what the call returns `(maxL, (u_f, w_f))` and the state
+the object is left in -/
+def fitCall {β : Type} (inf : α) (o : α × Option β) (rs : List (α × β)) : α × Option β :=
+  rs.foldl bestStep (inf, o.2)
+
+/-- the same call before the repair: `maxL` was initialised in `__init__` only -/
+def fitCallStale {β : Type} (o : α × Option β) (rs : List (α × β)) : α × Option β :=
+  rs.foldl bestStep o
+
+/-- a session: the calls of `fit` made on one object, in order (each with the finals of its realisations); the list
+of what the calls return -/
+def session {β : Type} (inf : α) : (α × Option β) → List (List (α × β)) → List (α × Option β)
+  | _, [] => []
+  | o, rs :: cs => fitCall inf o rs :: session inf (fitCall inf o rs) cs
+
+/-- the session before the repair -/
+def sessionStale {β : Type} : (α × Option β) → List (List (α × β)) → List (α × Option β)
+  | _, [] => []
+  | o, rs :: cs => fitCallStale o rs :: sessionStale (fitCallStale o rs) cs
 end
 
 /-! ## `HySC.apply_kmeans`: assembly of the 0/1 matrix from the k-means labels -/
